@@ -157,18 +157,24 @@ def check(run, replay):
     with ThreadPoolExecutor(max_workers=6) as ex:
         results = list(ex.map(one, progs))
 
-    # ---- corpus: one recorded interleaving of clang's stderr with its AST dump (what `2>&1` can produce)
+    # ---- corpus: a clang whose warning text appears on stderr in the middle of its AST dump on stdout (recorded
+    # from clang 14 on small.c). cppcheck must keep the two streams apart (fixed in /repo 49aff77; with `2>&1` the
+    # warning lands inside the dump and the import segfaults).
     data = os.path.join(os.path.dirname(os.path.abspath(__file__)), "c35_data")
     fake = os.path.join(WORK, "fakeclang")
-    open(fake, "w").write("#!/bin/sh\ncase \"$*\" in *--version*) echo 'clang version 14.0.0'; exit 0;; esac\ncat '%s'\n" % os.path.join(data, "stderr_interleaved.ast"))
+    open(fake, "w").write("#!/bin/sh\ncase \"$*\" in *--version*) echo 'clang version 14.0.0'; exit 0;; esac\n"
+                          "cat '%s'\ncat '%s' >&2\ncat '%s'\n" % tuple(os.path.join(data, f) for f in ("ast_part1.txt", "clang_stderr.txt", "ast_part2.txt")))
     os.chmod(fake, 0o755)
     shutil.copy(os.path.join(data, "small.c"), os.path.join(WORK, "small.c"))
     rc, out, _ = vlib.sh([vlib.CPPCHECK, "--clang=" + fake, "--dump", "-q", os.path.join(WORK, "small.c")], timeout=60, cwd=WORK)
-    run.count("clang-corpus", None, nontrivial="stderr_interleaved", bucket="exit %s" % rc)
-    if rc < 0 or rc in (134, 139):
-        run.violation("clang-stderr-interleaved-segv", "cppcheck --clang crashes (exit %s) on small.c when clang's warning text lands inside the AST dump (cppcheck runs clang with 2>&1)" % rc,
-                      {"input": open(os.path.join(data, "small.c")).read(), "ast_text_fed": "tools/props/c35_data/stderr_interleaved.ast",
-                       "how": "cppcheck --clang=<script that prints that file> --dump small.c"})
+    have_dump = os.path.exists(os.path.join(WORK, "small.c.dump")) and "<token " in open(os.path.join(WORK, "small.c.dump")).read()
+    run.count("clang-corpus", None, nontrivial="stderr_in_the_middle", bucket="exit %s, dump %s" % (rc, "with tokens" if have_dump else "without tokens"))
+    if rc < 0 or rc in (134, 139) or "internalError" in out or not have_dump:
+        run.violation("clang-stderr-interleaved-segv", "cppcheck --clang on small.c with a clang that prints a warning on stderr in the middle of the AST dump: exit %s%s" % (
+                          rc, "" if have_dump else ", no imported tokens") + (" " + out.strip()[:160] if out.strip() else ""),
+                      {"input": open(os.path.join(data, "small.c")).read(), "clang_stdout": "tools/props/c35_data/ast_part1.txt + ast_part2.txt",
+                       "clang_stderr_between_them": open(os.path.join(data, "clang_stderr.txt")).read(),
+                       "how": "cppcheck --clang=<script: cat part1; cat stderr >&2; cat part2> --dump small.c"})
 
     reader = D.load_reader()
     c14model = vlib.build_model("C14") if os.path.exists(os.path.join(vlib.COQ, "theories/Dump/Run.vo")) else None
